@@ -70,6 +70,27 @@ fn c02_array8_update_step() {
     core::mem::forget(a);
 }
 
+/// integer-only stand-in for rebuild_cached_values in register-model harnesses (the real function sums
+/// floats over all registers; c03_array8_rebuild_cached_values checks it on its own)
+pub(crate) static mut REBUILDS: u32 = 0;
+pub(crate) fn stub_rebuild_cached_values(a: &mut Array8) {
+    let mut z = 0u32;
+    let mut i = 0;
+    while i < a.bytes.len() {
+        if a.bytes[i] == 0 {
+            z += 1;
+        }
+        i += 1;
+    }
+    a.num_zeros = z;
+    unsafe {
+        REBUILDS += 1;
+    }
+}
+pub(crate) fn rebuild_count() -> u32 {
+    unsafe { REBUILDS }
+}
+
 fn spec_kxq(regs: &[u8]) -> (f64, f64) {
     // sum of 2^-r over registers, r < 32 into kxq0 and r >= 32 into kxq1 (exact in f64 for 16 registers)
     let mut k0 = 0.0f64;
@@ -96,9 +117,10 @@ fn spec_kxq(regs: &[u8]) -> (f64, f64) {
 //@ functions: hll::array8::Array8::rebuild_cached_values
 //@ functions: hll::array8::Array8::rebuild_estimator_from_registers
 //@ bounds: destination lg_k = 3 (8 registers), source lg_k = 3 (same) and lg_k = 4 (down-sampling), every register content 0..=63
-//@ desc: merge = slot-wise maximum with source slots folded by slot & (2^dst - 1); afterwards num_zeros = zero count, kxq0/kxq1 = sum of 2^-register recomputed, out-of-order flag set and hip_accum cleared
+//@ desc: merge = slot-wise maximum with source slots folded by slot & (2^dst - 1); afterwards the cached values are rebuilt (num_zeros = zero count; the kxq sums are checked by c03_array8_rebuild_cached_values), the out-of-order flag is set and hip_accum cleared
 #[kani::proof]
 #[kani::unwind(18)]
+#[kani::stub(Array8::rebuild_cached_values, stub_rebuild_cached_values)]
 fn c03_array8_merge_model() {
     let d: [u8; 8] = kani::any();
     let s8: [u8; 8] = kani::any();
@@ -120,8 +142,7 @@ fn c03_array8_merge_model() {
         assert!(a.get(i as u32) == model[i], "same-lg_k merge is not the slot-wise maximum");
         i += 1;
     }
-    let (k0, k1) = spec_kxq(&model);
-    assert!(a.estimator.kxq0() == k0 && a.estimator.kxq1() == k1, "kxq not rebuilt from the registers");
+    assert!(rebuild_count() == 1, "cached values not rebuilt after the merge");
     assert!(a.estimator.is_out_of_order() && a.estimator.hip_accum() == 0.0, "merged array not marked out-of-order");
     let mut z = 0;
     let mut i = 0;
@@ -148,9 +169,45 @@ fn c03_array8_merge_model() {
         model[i] = m;
         i += 1;
     }
-    let (k0, k1) = spec_kxq(&model);
-    assert!(b.estimator.kxq0() == k0 && b.estimator.kxq1() == k1);
+    assert!(rebuild_count() == 2, "cached values not rebuilt after the down-sampling merge");
     assert!(b.estimator.is_out_of_order());
     kani::cover!(model[0] >= 32 && model[1] == 0);
     core::mem::forget((a, b));
+}
+
+//@ props: C03 C17
+//@ tier: quick
+//@ timeout: 900
+//@ functions: hll::array8::Array8::rebuild_cached_values
+//@ bounds: register files of 4 registers, values from the concrete boundary set {0, 1, 31, 32, 63} chosen symbolically per register
+//@ desc: rebuild_cached_values sets num_zeros to the zero count and kxq0 / kxq1 to the exact sums of 2^-register (registers < 32 resp. >= 32)
+#[kani::proof]
+#[kani::unwind(8)]
+fn c03_array8_rebuild_cached_values() {
+    let vals = [0u8, 1, 31, 32, 63];
+    let mut regs = [0u8; 4];
+    let mut i = 0;
+    while i < 4 {
+        let j: usize = kani::any();
+        kani::assume(j < 5);
+        regs[i] = vals[j];
+        i += 1;
+    }
+    let mut a = raw_array8(2, &regs, ve::raw_estimator(9.0, 1.0, 1.0, false));
+    a.num_zeros = 99;
+    a.rebuild_cached_values();
+    let (k0, k1) = spec_kxq(&regs);
+    let mut z = 0;
+    let mut i = 0;
+    while i < 4 {
+        if regs[i] == 0 {
+            z += 1;
+        }
+        i += 1;
+    }
+    assert!(a.num_zeros == z, "num_zeros not rebuilt");
+    assert!(a.estimator.kxq0() == k0, "kxq0 not rebuilt from the registers");
+    assert!(a.estimator.kxq1() == k1, "kxq1 not rebuilt from the registers");
+    kani::cover!(z == 2 && k1 > 0.0);
+    core::mem::forget(a);
 }
